@@ -501,6 +501,16 @@ def check_programs(h: Harness):
                     continue
                 break
             h.count(f"programs-on-grammars-with-switched-off-productions:{kind}", made)
+            # ... and the extracted grammar is still what extraction made it: every rule lists its productions, their weights sum to one
+            # (creation retried failing productions many times on this very grammar object)
+            wts = g.get_weights()
+            for sym, prods in g.alternatives.items():
+                tot = sum(float(wts[p_]) for p_ in prods)
+                if abs(tot - 1.0) > 1e-9:
+                    h.fail("extract_grammar", "weights-not-normalised",
+                           f"after {made} programs were built from the extracted grammar with the {kind} chooser, the rule of {sym.__name__} lists "
+                           f"{[p_.__name__ for p_ in prods]} and their weights sum to {tot!r} (grammar {desc[:160]})", [desc, kind, "after-use"])
+                    break
             h.seen(f"programs:{desc}:{kind}", nontrivial=made > 20)
 
 
